@@ -128,6 +128,23 @@ class VirtualLoop(asyncio.SelectorEventLoop):
         timer._scheduled = True
         return timer
 
+    def run_in_executor(self, executor, func, *args):
+        """Synchronous user code (a sync actor, subscriber or callback goes through repid's asyncify) runs on the loop's own thread,
+        one iteration later - not in a real thread: a virtual clock does not wait for real threads (with nothing ready it jumps to
+        the next timer, e.g. the actor's time limit, while the thread is still on its way: a race that made one C02 case fail on
+        a fresh copy of the sandbox and pass here)."""
+        fut = self.create_future()
+
+        def run():
+            if fut.cancelled():
+                return
+            try:
+                fut.set_result(func(*args))
+            except BaseException as ex:  # noqa: BLE001
+                fut.set_exception(ex)
+        self.call_soon(run)
+        return fut
+
     def _run_once(self) -> None:
         self.iteration += 1
         if self.iteration > self.max_iterations:
